@@ -30,7 +30,7 @@ OUT_OF_CLAIM = ['streams longer than the bound for the E1 clauses', 'thresholds 
                 'get_commonality() float value']
 STUBS = []
 
-FORMS = ['add', 'update_list', 'update_iter', 'update_mapping', 'update_kw', 'mixed']
+FORMS = ['add', 'update_list', 'update_iter', 'update_mapping', 'update_kw', 'mixed', 'mapping_and_kw', 'list_and_kw']
 
 
 def check_state(tc, truth, total, W, thr):
@@ -112,6 +112,20 @@ def _body(ti, form, n, ks):
             cl = check_state(tc, truth, total, W, thr)
             if cl:
                 return fail(cl, 'after add #%d of %r' % (total, keys))
+    elif form in ('mapping_and_kw', 'list_and_kw'):
+        # one call carrying both a positional source and keyword counts (the same key may be in both)
+        half = n // 2
+        first, second = keys[:half], keys[half:]
+        if form == 'mapping_and_kw':
+            tc.update(dict(collections.Counter(first)), **dict(collections.Counter(second)))
+        else:
+            tc.update(list(first), **dict(collections.Counter(second)))
+        for k in keys:
+            truth[k] += 1
+            total += 1
+        cl = check_state(tc, truth, total, W, thr)
+        if cl:
+            return fail(cl, 'after %s of %r + %r' % (form, first, second))
     else:
         half = n // 2
         chunks = [keys[:half], keys[half:]]
@@ -156,7 +170,7 @@ def obligations(tier):
     T = 170 if q else 1500
     for ti in range(len(THRESHOLDS)):
         for form in range(len(FORMS)):
-            if form in (1, 2, 4) and ti not in (1, 3):
+            if form in (1, 2, 4, 6, 7) and ti not in (1, 3):
                 continue
             need = ('dropped_keys',) if ti < 4 else ()
             obs.append(Ob('tc_stream', timeout=T, pins={'thr': ti, 'form': form, 'nmax': 7 if q else 9}, need_kinds=need))
